@@ -36,8 +36,8 @@ def run(chk):
                               us_stride=512, us_offset=part * 37, extra=0))
     else:
         for i, o in enumerate(ORDERS4):
-            tasks.append(dict(n=4, order=o, via=None, us_stride=64,
-                              us_offset=i % 64, extra=1 + i % 2))
+            tasks.append(dict(n=4, order=o, via=None, us_stride=256,
+                              us_offset=i % 256, extra=1 + i % 2))
     for t in tasks:
         t.update(shard=chk.shard('sw_c10_%d' % tid), tid=tid, seed=chk.seed + tid)
         tid += 1
